@@ -67,7 +67,7 @@ def correspond(res, tier):
     batch = Batch()
     n = 60 if tier == 'quick' else 400
     for h, glue, X, T, bias, sigma, L in histories(res, rng, n, 14 if tier == 'quick' else 40):
-        def gen(pm, k, L=L, bias=bias, sigma=sigma):
+        def gen(pm, k, L=L, bias=bias, sigma=sigma, h=h):
             if k < L:
                 mlx = max(e.levels[1] for e in pm.mesh.leaf_elements)
                 mlt = max(e.levels[0] for e in pm.mesh.leaf_elements)
@@ -83,6 +83,13 @@ def correspond(res, tier):
                 return (kind, e.glob_idx)
             if k == L:
                 return ('grade', sigma, 4)
+            if k == L + 1 and h % 2 == 0 and len(pm.mesh.leaf_elements) <= 40:
+                # a second grading call on the same mesh object with another exponent (size-guarded)
+                s2 = {2: 1.5, 1.5: 2, 1: 1.5}[sigma]
+                mlt = max(e.levels[0] for e in pm.mesh.leaf_elements)
+                mlx = max(e.levels[1] for e in pm.mesh.leaf_elements)
+                if mlt <= 5 and mlx <= 4:
+                    return ('grade', s2, 4)
             return None
         pm, ops, status = batch.add_history(glue, X, T, gen, full_dump_every=0)
         res.count(('hist', h, res.seed, sigma), True)
@@ -120,32 +127,72 @@ def search(res, tier, boost=False):
             op = (kind, rng.choice(leaves).glob_idx)
             ops.append(op)
             pm.apply(op)
-        before = refmesh.leafset(pm.mesh)
-        rects_before = [refmesh.of_elem(e) for e in pm.mesh.leaf_elements]
-        hist = dict(glue=glue, X=[str(x) for x in X], T=[str(t) for t in T], ops=[op_json(o) for o in ops], sigma=sigma)
-        signal.alarm(60)
-        try:
-            out = pm.apply(('grade', sigma, 4))
-        except Timeout:
-            res.violation('C19:no-termination', dict(history=hist, fuse_s=60))
-            continue
-        finally:
-            signal.alarm(0)
-        res.count(('grade', h, res.seed, sigma), refmesh.leafset(pm.mesh) != before)
-        if out.startswith('err'):
-            res.violation('C19:grading-raises', dict(history=hist))
-            continue
-        p, q = {1: (1, 1), 2: (2, 1), 1.5: (3, 2)}[sigma]
-        badw = [e for e in pm.mesh.leaf_elements if not in_window(e, p, q, 4)]
-        if badw:
-            res.violation('C19:leaf-outside-window', dict(history=hist, leaf=repr(badw[0])))
-        # only refines: every new leaf lies in an old leaf
-        for e in pm.mesh.leaf_elements:
-            r = refmesh.of_elem(e)
-            if not any(o.t0 <= r.t0 and r.t1 <= o.t1 and o.x0 <= r.x0 and r.x1 <= o.x1 and o.lt <= r.lt and o.lx <= r.lx
-                       for o in rects_before):
-                res.violation('C19:not-a-refinement', dict(history=hist))
+        def grade_and_check(sigma):
+            before = refmesh.leafset(pm.mesh)
+            rects_before = [refmesh.of_elem(e) for e in pm.mesh.leaf_elements]
+            hist = dict(glue=glue, X=[str(x) for x in X], T=[str(t) for t in T], ops=[op_json(o) for o in ops], sigma=sigma)
+            ops.append(('grade', sigma, 4))
+            signal.alarm(60)
+            try:
+                out = pm.apply(('grade', sigma, 4))
+            except Timeout:
+                res.violation('C19:no-termination', dict(history=hist, fuse_s=60))
+                return False
+            finally:
+                signal.alarm(0)
+            res.count(('grade', h, res.seed, sigma, len(ops)), refmesh.leafset(pm.mesh) != before)
+            if out.startswith('err'):
+                res.violation('C19:grading-raises', dict(history=hist))
+                return False
+            p, q = {1: (1, 1), 2: (2, 1), 1.5: (3, 2)}[sigma]
+            badw = [e for e in pm.mesh.leaf_elements if not in_window(e, p, q, 4)]
+            if badw:
+                res.violation('C19:leaf-outside-window', dict(history=hist, leaf=repr(badw[0])))
+                return False
+            # only refines: every new leaf lies in an old leaf
+            for e in pm.mesh.leaf_elements:
+                r = refmesh.of_elem(e)
+                if not any(o.t0 <= r.t0 and r.t1 <= o.t1 and o.x0 <= r.x0 and r.x1 <= o.x1 and o.lt <= r.lt and o.lx <= r.lx
+                           for o in rects_before):
+                    res.violation('C19:not-a-refinement', dict(history=hist))
+                    return False
+            bad = oracle_mesh(pm.mesh, X, T, glue, check_nbrs=len(pm.mesh.leaf_elements) <= 300)
+            if bad:
+                res.violation('C19:invariant-broken:' + bad[0].split(':')[0], dict(clause=bad[0], history=hist))
+                return False
+            return True
+
+        def cost(sigma):
+            """cells needed to bring every leaf into the window on its own (size guard for a further grading call)"""
+            p, q = {1: (1, 1), 2: (2, 1), 1.5: (3, 2)}[sigma]
+            tot = 0
+            for e in pm.mesh.leaf_elements:
+                ht = F(e.time_interval[1]) - F(e.time_interval[0])
+                hx = F(e.space_interval[1]) - F(e.space_interval[0])
+                j = 0
+                while not (hx**p < (4 * ht)**q) and j < 40:
+                    hx, j = hx / 2, j + 1
+                while not ((ht / 4)**q < hx**p) and j < 40:
+                    ht, j = ht / 2, j + 1
+                tot += 2**j
+            return tot
+
+        ok = grade_and_check(sigma)
+        # a graded mesh is a reachable mesh: bisect on and grade again, with another exponent
+        calls = 0
+        while ok and calls < 2 and rng.random() < 0.5:
+            calls += 1
+            for _ in range(rng.randint(0, 3)):
+                leaves = list(pm.mesh.leaf_elements)
+                if len(leaves) > 150:
+                    break
+                op = (rng.choice(['rt', 'rs']), rng.choice(leaves).glob_idx)
+                ops.append(op)
+                pm.apply(op)
+            sigma2 = rng.choice([s for s in (1, 1.5, 2) if s != sigma])
+            if cost(sigma2) > 600:
+                res.bump('regrade_skipped_size_guard')
                 break
-        bad = oracle_mesh(pm.mesh, X, T, glue, check_nbrs=len(pm.mesh.leaf_elements) <= 300)
-        if bad:
-            res.violation('C19:invariant-broken:' + bad[0].split(':')[0], dict(clause=bad[0], history=hist))
+            res.bump('regrade_calls')
+            ok = grade_and_check(sigma2)
+            sigma = sigma2
